@@ -9,7 +9,7 @@ from vf.ref import overlap
 
 ID = "C14"
 BOUNDS = {
-    "quick": "14 fragment environments (chains, diamonds, self/mutual recursion, 3-cycles, same fragment under exclusive and non-exclusive parents) x every pair of 24 Dog-level items x 10 Cat-level items x 6 interface-level items (every pair collides on a response name in a different way), both definition orders for a quarter of them",
+    "quick": "14 fragment environments (chains, diamonds, self/mutual recursion, 3-cycles, same fragment under exclusive and non-exclusive parents) x every pair of 27 Dog-level items x 10 Cat-level items x 6 interface-level items (every pair collides on a response name in a different way), both definition orders for a quarter of them",
     "thorough": "15 Cat-level and 10 interface-level items, plus triples of Dog-level items, both definition orders everywhere",
 }
 RULE = (
@@ -26,8 +26,8 @@ ASSUMPTIONS = [
 
 SCHEMA = """
 interface Pet { name: String nick: String n: Int same: Pet l: [Int] owner: Pet }
-type Dog implements Pet { name: String nick: String n: Int same: Pet l: [Int] owner: Pet x: Int y: String z: Int! a(i: Int, o: In): Int sub: Dog ll: [[Int]] }
-type Cat implements Pet { name: String nick: String n: Int same: Pet l: [Int] owner: Pet x: String y: String z: Int a(i: Int, o: In): Int sub: Cat ll: [Int] }
+type Dog implements Pet { name: String nick: String n: Int same: Pet l: [Int] owner: Pet x: Int y: String z: Int! a(i: Int, o: In): Int m(ps: [In], pp: [[In]]): Int sub: Dog ll: [[Int]] }
+type Cat implements Pet { name: String nick: String n: Int same: Pet l: [Int] owner: Pet x: String y: String z: Int a(i: Int, o: In): Int m(ps: [In], pp: [[In]]): Int sub: Cat ll: [Int] }
 input In { p: Int q: Int }
 union CD = Cat | Dog
 type Query { pet: Pet dog: Dog cd: CD }
@@ -36,6 +36,7 @@ type Query { pet: Pet dog: Dog cd: CD }
 DOG_ITEMS = [
     "x", "y", "r: x", "r: y", "r: z", "r: n", "r: a(i: 1)", "r: a(i: 2)", "r: a(o: {p: 1, q: 2})", "r: a(o: {q: 2, p: 1})", "r: a(i: $v)",
     "r: sub { x }", "r: sub { x: y }", "r: l", "r: ll", "...F", "...G", "... on Dog { r: n }",
+    "r: m(ps: [{p: 1, q: 2}])", "r: m(ps: [{q: 2, p: 1}])", "r: m(pp: [[{q: 2, p: 1}], []])",
     "same { r: name }", "same { ...Q }", "owner { ...A }", "owner { r: name ...A }", "r: sub { ...F }", "same { r: nick t: n }",
 ]
 CAT_ITEMS = [
